@@ -90,6 +90,7 @@ void* make_data(const char* spec, int ty, size_t* n_out)
 			case 3: v = (double)((i / 37) % 5) * 0.25; break;
 			case 4: v = (lcg(&s) % 50 == 0) ? (urand(&s) * 2 - 1) * 100.0 : sin((double)i * 0.02); break;
 			case 5: v = (i & 1) ? 1.0 : 0.0; break;
+			case 7: v = (urand(&s) < 0.5 ? -1.0 : 1.0) * ldexp(1.0 + urand(&s), (int)(urand(&s) * 40) - 20); break;   /* random sign, mantissa and 40 binades: nothing to predict, nothing to share */
 			default: v = 1.0; break;
 			}
 			v = v * scale + off;
